@@ -115,7 +115,9 @@ pub fn sparse(shape: &Shape, free: &[u32], hint: u32, name: &str) -> Sparse {
         clusters = c;
     }
     let spf = ((clusters + 2) * 4 + bps - 1) / bps;
-    let total = reserved + nfats * spf + clusters * spc;
+    // the data area ends in a partial cluster (spc-1 slack sectors) wherever the 32-bit sector count allows it
+    let slack = if reserved + nfats * spf + clusters * spc + spc - 1 <= u32::MAX as u64 { spc - 1 } else { 0 };
+    let total = reserved + nfats * spf + clusters * spc + slack;
     assert!(total <= u32::MAX as u64, "{}: {total} sectors", shape.name);
     let tail = 1u64 << 20;
     let len = total * bps + tail;
